@@ -22,6 +22,12 @@ CLAIMED = {
    design_ref='DESIGN.md §3 C08',
    note='Seeded sampling of histories, not enumeration. Buffers never import unsaved open buffers. Per-probe comparison as sorted multisets; RecursionError inconclusive; a mismatch is re-checked against a second oracle process under another hash seed and dropped as oracle-unstable if the oracle disagrees with itself.',
    technique='deterministic simulation: seeded edit-history + simulated clock + cache-knob buggify in a long-lived process, pristine-process reference oracle per step'),
+ 'C09': dict(
+   category='exploration',
+   text='Seeded file-system histories on a generated project (write new, overwrite same/different size, overwrite via rename, delete, rename, module<->package, add/remove __init__.py, add/remove stub, older file renamed onto a module, touch, submodule changes, a sys.path entry that appears late) where EVERY mtime/atime the code can observe is assigned by the simulator from a simulated file-system clock (policies: strictly monotone, coarse 1 s/2 s ticks, backward steps, constant skew against the process clock), simulated time.time() advances from 0 to 40 days (crossing parso lock/sweep thresholds), host restarts that continue the same history in a new interpreter on the warm pickle directory with a new helper, cache-size knob. Oracle after every query: a pristine process with an empty cache on a copy of the current files (stale names are self-identifying through per-version identifier pools). Discrepancy in a monotone history = VIOLATION; in a non-monotone history the engine replays the counterfactual (same ops, strictly increasing stamps for files only / directories only / both) and reports KNOWN-FINDING only if that passes.',
+   design_ref='DESIGN.md §3 C09',
+   note='Mutations never land inside a query; torn pickles are not injected; seeded sampling. The two listed timestamp findings live in parso and importlib and are reported as KNOWN-FINDING only after counterfactual confirmation.',
+   technique='deterministic simulation: seeded file-system histories with simulator-assigned timestamps + host restarts on warm cache, pristine-process oracle, counterfactual replay'),
 }
 
 NA = {
@@ -41,7 +47,6 @@ NA = {
  'C20': 'pure function of constructor arguments; save/load is two deterministic steps with no crash claim',
 }
 PENDING = {
- 'C09': 'check not built yet (planned: file-system-history simulation, see DESIGN.md §3)',
  'C12': 'check not built yet (planned: sentinel/host/helper state conservation, see DESIGN.md §3)',
  'C07': 'check not built yet (planned: disk-effect clauses, see DESIGN.md §3)',
 }
